@@ -28,8 +28,9 @@ pub struct Engine<'a, L> {
     unique_parent: HashMap<Box<str>, Option<(usize, Box<str>)>>,
     // List seeds
     list_seeds: Vec<usize>,
-    // Mark bnode ids as list node, and map to their index
-    list_node: HashMap<Box<str>, usize>,
+    // Mark node indexes (i.e. a bnode *in a given graph*) as list node,
+    // and map to the index of their parent
+    list_node: HashMap<usize, usize>,
     // Mark index of bnode as compound literals
     compound_literals: HashSet<usize>,
 }
@@ -175,7 +176,7 @@ impl<'a, L> Engine<'a, L> {
                 let map = &mut self.node[inode];
                 if is_list_node(map) {
                     // this node is indeed a list node
-                    self.list_node.insert(s_id.clone(), *iparent);
+                    self.list_node.insert(inode, *iparent);
                     if ps_id.starts_with("_:") && pp.as_ref() == RDF_REST {
                         let iparent = *iparent;
                         // the explicit copy of iparent above is required,
@@ -209,7 +210,7 @@ impl<'a, L> Engine<'a, L> {
             // we will include it later
             return Ok(None);
         }
-        if self.list_node.contains_key(s_id)
+        if self.list_node.contains_key(&inode)
             || (self.options.rdf_direction() == Some(RdfDirection::CompoundLiteral)
                 && self.compound_literals.contains(&inode))
         {
@@ -345,7 +346,7 @@ impl<'a, L> Engine<'a, L> {
                     json_syntax::json!({
                         "@id": JsonValue::from(id.as_ref()),
                     })
-                } else if self.list_node.contains_key(id) {
+                } else if self.list_node.contains_key(inode) {
                     let mut list_items = Vec::new();
                     self.populate_list(&mut list_items, *inode)?;
                     json_syntax::json!({
